@@ -12,18 +12,24 @@ Metamorphic relations evaluated on pairs of real builds (nothing is re-implement
                slice unchanged.
 
 The two builds of a pair always use two freshly constructed Potential objects (no shared
-integrator), so a cache cannot make them agree by construction.
+integrator), so a cache cannot make them agree by construction.  About half of the cases construct the potentials with
+non-default arguments (vf/lib_potopts.py): the relations are promised for those as well.
 """
 import numpy as np
 
 from vf import gen as G
+from vf import lib_potopts as P
 
 PROPERTY = "C08"
 TECHNIQUE = "runtime monitoring; metamorphic oracle on pairs of real potential builds (roll / tile / slice-mean relations)"
 RULE = ("random orthogonal cells 3-8 A with 1-12 atoms of mixed Z, positions anywhere (outside the cell, on cell faces incl. tiny negative rounding "
         "artefacts, on pixel boundaries and pixel centres), grids 7-40 odd/even/rectangular, lobato/kirkland/peng, infinite and finite projection, "
         "slice thickness scalar or sequence, pixel shifts in [-2n, 2n] incl. 0-row/0-column and more than a cell, repetitions "
-        "(1-3, 1-3, 1-2), real sub-pixel translations, eager and lazy, float64 and float32; non-trivial = the translation is not "
+        "(1-3, 1-3, 1-2), real sub-pixel translations, eager and lazy, float64 and float32; in 55 % of the cases non-default "
+        "constructor arguments: parametrization objects with per-element sigmas (all / some / absent elements), custom "
+        "Quadrature / ScatteringFactor / Gaussian integrators with non-default cutoff_tolerance, taper, integration_step, "
+        "quad_order, inner_cutoff_factor, periodic=False on in-cell atoms, plane permutations (geometry given in the "
+        "potential's frame), origin and box passed through; non-trivial = the translation is not "
         "a multiple of the cell (shift), some repetition > 1 (tile), a non-integer pixel translation (subpixel); distinct = "
         "distinct case signature")
 CLAUSES = ["shift-infinite", "shift-finite", "tile-array-vs-supercell", "crystal-vs-supercell", "crystal-vs-tile",
@@ -102,7 +108,12 @@ def gen(rng, tier):
                 p[2] = float(rng.random() * cell[2])
     case = {"kind": kind, "cell": atoms, "gpts": [int(g) for g in gpts], "projection": proj,
             "parametrization": str(rng.choice(["lobato", "lobato", "kirkland", "peng"])), "slice_thickness": st,
-            "precision": "float64" if rng.random() < 0.75 else "float32", "lazy": bool(rng.random() < 0.4)}
+            "precision": "float64" if rng.random() < 0.75 else "float32", "lazy": bool(rng.random() < 0.4),
+            # non-default constructor arguments (parametrization with sigmas, custom integrators, periodic flag, plane,
+            # origin, box); the geometry above is in the potential's frame
+            "opts": P.gen(rng, proj, atoms["symbols"])}
+    if case["opts"].get("plane"):
+        case["opts"].pop("box", None)
     if kind == "shift":
         r = rng.random()
         sh = [int(rng.integers(-2 * gpts[0], 2 * gpts[0] + 1)), int(rng.integers(-2 * gpts[1], 2 * gpts[1] + 1))]
@@ -132,6 +143,24 @@ def fixed_cases(tier):
                         "slice_thickness": [0.8, 1.2, 1.0], "precision": "float64", "lazy": lazy, "reps": [2, 3, 2]})
     out.append({"kind": "subpixel", "cell": base, "gpts": [9, 14], "projection": "infinite", "parametrization": "peng",
                 "slice_thickness": 0.7, "precision": "float64", "lazy": False, "translation": [0.1234, -7.77]})
+    # non-default constructor arguments: atoms next to the cell faces, so anything that is not periodic shows
+    sig = {"Si": 0.3, "C": 0.2, "Au": 0.15}
+    quad = {"type": "quadrature", "cutoff_tolerance": 1e-3, "taper": 0.7, "integration_step": 0.05, "quad_order": 4,
+            "inner_cutoff_factor": 3.0}
+    for proj, opts in (("finite", {"sigmas": sig}), ("infinite", {"sigmas": sig}), ("finite", {"sigmas": {"Si": 0.3}}),
+                       ("finite", {"integrator": quad, "sigmas": sig}), ("infinite", {"integrator": {"type": "scattering"}}),
+                       ("finite", {"integrator": {"type": "gaussian"}}), ("finite", {"periodic": False, "sigmas": sig}),
+                       ("infinite", {"periodic": False}), ("finite", {"plane": "yx", "sigmas": sig}),
+                       ("infinite", {"plane": "zx", "origin": [0.5, -0.25, 0.3]}), ("infinite", {"box": True})):
+        out.append({"kind": "shift", "cell": base, "gpts": [16, 20], "projection": proj, "parametrization": "lobato",
+                    "slice_thickness": 1.5, "precision": "float64", "lazy": False, "shift": [7, -3], "opts": opts})
+    for proj, opts in (("finite", {"sigmas": sig}), ("infinite", {"sigmas": sig, "plane": "xz"}),
+                       ("finite", {"integrator": quad, "periodic": False})):
+        out.append({"kind": "tile", "cell": base, "gpts": [8, 11], "projection": proj, "parametrization": "lobato",
+                    "slice_thickness": [0.8, 1.2, 1.0], "precision": "float64", "lazy": True, "reps": [2, 1, 2], "opts": opts})
+    out.append({"kind": "subpixel", "cell": base, "gpts": [9, 14], "projection": "infinite", "parametrization": "kirkland",
+                "slice_thickness": 0.7, "precision": "float64", "lazy": False, "translation": [0.1234, -7.77],
+                "opts": {"sigmas": sig, "integrator": {"type": "scattering"}}})
     return out
 
 
@@ -152,9 +181,12 @@ def _st_arg(st):
 
 
 def _potential(case, atoms, gpts, st):
+    """New Potential (new parametrization / integrator objects) for atoms given in the potential's frame."""
     import abtem
-    return abtem.Potential(atoms, gpts=tuple(gpts), slice_thickness=st, projection=case["projection"],
-                           parametrization=case["parametrization"])
+    opts = case.get("opts") or {}
+    user_atoms = P.prepare_atoms(atoms, opts)
+    kw = P.kwargs(opts, case["projection"], case["parametrization"], cell=user_atoms.cell.lengths())
+    return abtem.Potential(user_atoms, gpts=tuple(gpts), slice_thickness=st, **kw)
 
 
 def _built(pot, lazy):
@@ -171,8 +203,12 @@ def _half_pixel(case):
     return bool((np.abs(frac - 0.5) < 1e-6).any())
 
 
+def _f64(case):
+    return case["precision"] == "float64" and not P.single_precision(case.get("opts"))
+
+
 def _tol(case):
-    t = TOL[case["projection"]][0 if case["precision"] == "float64" else 1]
+    t = TOL[case["projection"]][0 if _f64(case) else 1]
     if case["projection"] == "finite" and _half_pixel(case):
         t = max(t, TOL_HALF_PIXEL)
     return t
@@ -225,7 +261,7 @@ def _check(ctx, case):
         m1 = g.mean(axis=(1, 2), dtype=np.float64)
         ctx.monitor("slices-compared", a.shape[0])
         # the mean is the zero-frequency coefficient: N_atoms * f(0) / cell area for every position
-        ctx.close(m1, m0, "subpixel-mean", rtol=1e-10 if case["precision"] == "float64" else 2e-5,
+        ctx.close(m1, m0, "subpixel-mean", rtol=1e-10 if _f64(case) else 2e-5,
                   translation=[tx, ty])
         frac = [(tx / (cell[0] / gpts[0])) % 1.0, (ty / (cell[1] / gpts[1])) % 1.0]
         ctx.nontrivial(any(1e-3 < f < 1 - 1e-3 for f in frac) and float(np.abs(m0).max()) > 0
@@ -263,13 +299,13 @@ def _check(ctx, case):
     c = np.asarray(cr.array)
     ctx.close(c, s, "crystal-vs-supercell", rtol=_tol(case), reps=[rx, ry, rz])
     # same unit potential, same arithmetic: only copies are involved
-    ctx.close(c, t, "crystal-vs-tile", rtol=1e-12 if case["precision"] == "float64" else 1e-6)
+    ctx.close(c, t, "crystal-vs-tile", rtol=1e-12 if _f64(case) else 1e-6)
     ctx.close(cr.slice_thickness, unit_st * rz, "tile-geometry", rtol=1e-12)
     ctx.close(cr.sampling, ref.sampling, "tile-geometry", rtol=1e-12)
     # the slices as generated (what multislice consumes) are the tiled unit slices as well
     k = 0
     for slic in crystal.generate_slices():
-        ctx.close(np.asarray(slic.array)[0], want[k], "crystal-vs-tile", rtol=1e-12 if case["precision"] == "float64" else 1e-6,
+        ctx.close(np.asarray(slic.array)[0], want[k], "crystal-vs-tile", rtol=1e-12 if _f64(case) else 1e-6,
                   slice=k)
         k += 1
     ctx.equal(k, want.shape[0], "tile-geometry", what="number of generated crystal slices")
